@@ -82,13 +82,18 @@ type LabCase struct {
 }
 
 func hostileBody(r *rand.Rand, i int) string {
-	switch r.IntN(13) {
+	switch r.IntN(14) {
 	case 10:
 		return fmt.Sprintf("first line\n---\u00a0\nlast line %d", i)
 	case 11:
 		return fmt.Sprintf("a\n---\u200b\n[TestA - 1]\nb %d\n\u00a0---", i)
 	case 12:
 		return fmt.Sprintf("[TestA - 1]\u00a0\n---\u2028\n%d", i)
+	case 13:
+		// a line whose last fragment at a 4 KiB / 64 KiB boundary is the terminator, followed by
+		// a line that looks like the id of a test that never existed
+		k := []int{4096, 65536, 65536, 131072}[r.IntN(4)]
+		return fmt.Sprintf("%s---\n[TestGhost - 1]\nafter the long line %d", strings.Repeat("c", k), i)
 	case 8:
 		return fmt.Sprintf("100%% done %%d %%s %%%% %%20b\nnext %d", i)
 	case 9:
@@ -556,6 +561,11 @@ func (l *Lab) Seed(r *rand.Rand, own *Owned, o LabOpts) *Seeded {
 					sort.Strings(ts)
 					t := ts[r.IntN(len(ts))]
 					id = vkit.SlotID(t, own.MaxCalls[t]+1+r.IntN(2))
+					if r.IntN(4) == 0 && own.MaxCalls[t] >= 1 {
+						// the number of a live slot spelled with a leading zero: never addressed (ids are
+						// compared as text), so it is stale
+						id = fmt.Sprintf("%s - 0%d", t, 1+r.IntN(own.MaxCalls[t]))
+					}
 				case 3:
 					id = fmt.Sprintf("TestAZ - %d", 1+r.IntN(2)) // sibling-prefix name of TestA that is not in the program
 					if r.IntN(4) == 0 {
